@@ -177,6 +177,60 @@ def run(ctx):
                 if i != j:
                     payloads.append({"docs": docs, "calls": [(i, "json"), (j, "json")]})
                     payloads.append({"docs": docs, "calls": [(i, "dict"), (j, "file"), (i, "json")]})
+    # pairs of DIFFERENT documents whose errors sit at the same document paths (error messages carry context that
+    # is cached per path): an unknown attribute in the operation of the k-th action of two unrelated scenarios,
+    # with the top-level key order varied
+    for k in range(40 if quick else 400):
+        pair = []
+        for j in range(2):
+            s2, b2 = S.gen_valid(rng, rng.choice([3, 4]), threads=False, builder=True)
+            idx = k % 3
+            a = s2["actions"][min(idx, len(s2["actions"]) - 1)]
+            mode, sel = a["op"]["incl"]
+            a["op"]["incl"] = (mode, list(sel or []) + [88])
+            doc = S.render(s2, random.Random(rng.randrange(1 << 30)), "id", False, False)
+            keys = list(doc.keys())
+            if (k + j) % 2 == 0:
+                keys.remove("actions"); keys.append("actions")          # actions validated last
+            else:
+                keys.remove("actions"); keys.insert(0, "actions")       # actions validated first
+            pair.append({kk: doc[kk] for kk in keys})
+        payloads.append({"docs": pair, "calls": [(0, "json"), (1, "json")]})
+        payloads.append({"docs": pair, "calls": [(1, "dict"), (0, "json"), (1, "file")]})
+    # the same with minimal documents (plain creating actions only, so that the erroneous action is the first and
+    # the last place where message context is computed)
+    import checks.c04 as c04
+    for k in range(12):
+        pair = []
+        for j in range(2):
+            s2 = c04.base_scenario()
+            s2["checkpoints"] = []
+            off = [0, 5][j] + k
+            for i, a in enumerate(s2["actions"]):
+                a["id"], a["name"], a["dep"] = off + i, 400 + off + i, None
+            bad = k % 3
+            s2["actions"][bad]["op"]["incl"] = ("include", [0, 88])
+            doc = S.render(s2, random.Random(1), "id", False, False)
+            keys = list(doc.keys())
+            keys.remove("actions")
+            keys = keys + ["actions"] if j == 0 else keys[:2] + ["actions"] + keys[2:]
+            pair.append({kk: doc[kk] for kk in keys})
+        payloads.append({"docs": pair, "calls": [(0, "json"), (1, "json")]})
+        payloads.append({"docs": pair, "calls": [(0, "dict"), (1, "dict")]})
+    # importing documents (imported files are written into the snapshot), incl. misdirected connections:
+    # stitching rewrites whatever entity a connection's to_ref resolves to
+    import imports as I
+    for k in range(12 if quick else 120):
+        docs = []
+        for j in range(3):
+            if j == 0:
+                case = I.gen_valid_i(rng, threads=(k % 3 == 0))
+            else:
+                case, _, _ = I.mutate_i(rng, only=("connection_target_native", "connection_target_missing", "cycle_through_connection", "add_dependency_not_native_checkpoint"))
+            docs.append(I.render_i(case, ctx.repo_copy, random.Random(rng.randrange(1 << 30)), "mixed", False, False))
+        for _ in range(2):
+            calls = [(rng.randrange(len(docs)), rng.choice(["dict", "dict", "json", "file"])) for _ in range(rng.randint(2, 6))]
+            payloads.append({"docs": docs, "calls": calls})
     pool = impl.Pool(ctx)
     results = pool.call_many("history_one", payloads, chunk=2)
     pool.close()
